@@ -6,9 +6,11 @@ mod c04;
 mod c05;
 mod c06;
 mod c08;
+mod c09;
 mod c11;
 mod c12;
 mod c13;
+mod c15;
 mod c16;
 
 use serde_json::Value;
@@ -21,6 +23,10 @@ fn main() {
     }
     vlib::report::install_quiet_panic_hook();
     let id = args[1].as_str();
+    if id == "C15-child" {
+        let code = c15::child(args[2].parse().unwrap(), args[3].parse().unwrap());
+        std::process::exit(code);
+    }
     if args[2] == "--replay" {
         let text = std::fs::read_to_string(&args[3]).expect("read replay file");
         let v: Value = serde_json::from_str(&text).expect("replay json");
@@ -37,6 +43,9 @@ fn main() {
         "C07" => c01::run_c07(tier),
         "C02" => c02::run(tier),
         "C08" => c08::run(tier),
+        "C15" => c15::run(tier),
+        "C09" => c09::run(tier, c09::Mode::Total),
+        "C10" => c09::run(tier, c09::Mode::Valid),
         "C12" => c12::run(tier),
         "C06" => c06::run(tier, c06::Prop::C06),
         "C17" => c06::run(tier, c06::Prop::C17),
@@ -63,6 +72,8 @@ fn replay(id: &str, v: &Value) -> i32 {
             "C01" | "C07" => c01::replay(case),
             "C02" => c02::replay(case),
             "C08" => c08::replay(case),
+            "C15" => c15::replay(case),
+            "C09" | "C10" => c09::replay(case),
             "C12" => c12::replay(case),
             "C06" | "C17" => c06::replay(case),
             "C05" => c05::replay(case),
